@@ -1,4 +1,5 @@
 import FGVerif.Proofs.C13
+import FGVerif.Proofs.C13Any
 #print axioms C13.replace_exact
 #print axioms C13.replace_empty
 #print axioms C13.specCheck_sound
@@ -13,3 +14,14 @@ import FGVerif.Proofs.C13
 #print axioms C13.relabel_spec
 #print axioms C13.relabelSpecCheck_sound
 #print axioms C13.rank_lt
+#print axioms C13.replace_exact_any
+#print axioms C13.replace_labels_any
+#print axioms C13.compose_incident_order_any
+#print axioms C13.replace_wf_any
+#print axioms C13.replace_ids_perm
+#print axioms C13.replace_contiguousAny
+#print axioms C13.replace_empty_any
+#print axioms C13.specCheck_sound_any
+#print axioms C13.replace_specCheck_any
+#print axioms C13.inDomainAny_of_inDomain
+#print axioms C13.order_witness
